@@ -26,6 +26,8 @@ type cand struct {
 	Typ        string `json:"t"`
 	Rest       string `json:"r,omitempty"` // raddr/rport, tcptype, generation ...
 	Raw        string `json:"raw,omitempty"`
+	// NoFoundation: the value starts with a blank instead of a foundation
+	NoFoundation bool `json:"nofoundation,omitempty"`
 	// Sep: how the tokens are separated. WebRTC stacks (pion: strings.Fields) accept any run of blanks
 	// and tabs: "" = single blanks; tab-after-typ | blanks-after-typ | tab-before-typ | tabs | blanks-before-addr
 	Sep string `json:"sep,omitempty"`
@@ -48,7 +50,11 @@ func (c cand) value() string {
 	case "blanks-before-addr":
 		beforeAddr = "   "
 	}
-	s := c.Foundation + sp + c.Component + sp + c.Proto + sp + c.Priority + beforeAddr + c.Addr + sp + c.Port + beforeTyp + "typ" + afterTyp + c.Typ
+	fnd := c.Foundation
+	if c.NoFoundation {
+		fnd = ""
+	}
+	s := fnd + sp + c.Component + sp + c.Proto + sp + c.Priority + beforeAddr + c.Addr + sp + c.Port + beforeTyp + "typ" + afterTyp + c.Typ
 	if c.Rest != "" {
 		s += " " + c.Rest
 	}
@@ -56,8 +62,8 @@ func (c cand) value() string {
 }
 
 type media struct {
-	Kind  string   `json:"kind"` // application | audio | video
-	Pre   []string `json:"pre,omitempty"`  // other attributes before candidates
+	Kind  string   `json:"kind"`          // application | audio | video
+	Pre   []string `json:"pre,omitempty"` // other attributes before candidates
 	Cands []cand   `json:"cands,omitempty"`
 	Post  []string `json:"post,omitempty"` // other attributes after / between
 	// Interleave: position of Post[i] among the candidates (after candidate index)
@@ -146,10 +152,15 @@ func isLocalRef(a netip.Addr) bool {
 }
 
 func classifyCandidate(v string) verdict {
-	if v == "" || v[0] == ' ' || v[0] == '\t' {
+	if v == "" || v[0] == '\t' {
 		return either
 	}
 	f := strings.Fields(v)
+	if v[0] == ' ' {
+		// a candidate without foundation ("a=candidate: 1 udp ..."): not RFC 8445, but WebRTC stacks accept
+		// it ("seen in the wild") - a receiving peer would use the address, so it is a candidate like any other
+		f = append([]string{" "}, f...)
+	}
 	if len(f) < 8 || f[6] != "typ" {
 		return either
 	}
@@ -345,14 +356,15 @@ func genAddr(t *rapid.T) string {
 
 func genCand(t *rapid.T) cand {
 	c := cand{
-		Foundation: rapid.SampledFrom([]string{"1", "3144168538", "foundation", "0"}).Draw(t, "foundation"),
-		Component:  rapid.SampledFrom([]string{"1", "2", "1", "1"}).Draw(t, "component"),
-		Proto:      rapid.SampledFrom([]string{"udp", "udp", "UDP", "tcp", "TCP"}).Draw(t, "proto"),
-		Priority:   rapid.SampledFrom([]string{"2130706431", "1694498815", "16777215", "0", "4294967295"}).Draw(t, "priority"),
-		Addr:       genAddr(t),
-		Port:       strconv.Itoa(rapid.IntRange(0, 65535).Draw(t, "port")),
-		Typ:        rapid.SampledFrom([]string{"host", "host", "host", "srflx", "prflx", "relay"}).Draw(t, "typ"),
-		Sep:        rapid.SampledFrom([]string{"", "", "", "", "", "tab-after-typ", "blanks-after-typ", "tab-before-typ", "tabs", "blanks-before-addr"}).Draw(t, "sep"),
+		Foundation:   rapid.SampledFrom([]string{"1", "3144168538", "foundation", "0"}).Draw(t, "foundation"),
+		Component:    rapid.SampledFrom([]string{"1", "2", "1", "1"}).Draw(t, "component"),
+		Proto:        rapid.SampledFrom([]string{"udp", "udp", "UDP", "tcp", "TCP"}).Draw(t, "proto"),
+		Priority:     rapid.SampledFrom([]string{"2130706431", "1694498815", "16777215", "0", "4294967295"}).Draw(t, "priority"),
+		Addr:         genAddr(t),
+		Port:         strconv.Itoa(rapid.IntRange(0, 65535).Draw(t, "port")),
+		Typ:          rapid.SampledFrom([]string{"host", "host", "host", "srflx", "prflx", "relay"}).Draw(t, "typ"),
+		Sep:          rapid.SampledFrom([]string{"", "", "", "", "", "tab-after-typ", "blanks-after-typ", "tab-before-typ", "tabs", "blanks-before-addr"}).Draw(t, "sep"),
+		NoFoundation: rapid.IntRange(0, 9).Draw(t, "nofoundation") == 0,
 	}
 	if c.Typ != "host" {
 		if rapid.IntRange(0, 4).Draw(t, "raddr") != 0 {
